@@ -95,6 +95,21 @@ def body_model(case):
     check(got.shape == exp.shape, "system_capture:shape", f"{got.shape} != {exp.shape}")
     check(np.all(np.abs(got - exp) <= 1e-10 * scm.reshape(exp.shape) + 1e-300), "system_capture:value",
           f"system_capture(x)={np.ravel(got)[:3].tolist()} != capture of mixed spectrum {np.ravel(exp)[:3].tolist()}")
+    # (a') the same statement when the sources live on their own wavelength grid (a shifted grid whose overlap with the filters'
+    # grid is not a whole number of steps): A x is the capture of the mixed spectrum given on that grid
+    nd_ = F.shape[1]
+    if nd_ >= 6:
+        import dreye as _dreye
+        fd_ = 300.0 + np.arange(nd_) * 1.0
+        sd_ = 300.0 + 0.37 + np.arange(nd_) * (1.0 + 0.013 * (nf + ns))
+        with calling("register_system(domain=) / capture(domain=)"):
+            est_o = _dreye.ReceptorEstimator(F, domain=fd_)
+            est_o.register_system(Ssrc, domain=sd_)
+            got_o = np.asarray(est_o.system_capture(X.reshape(-1, ns)), dtype=float)
+            mix_o = np.asarray(est_o.capture(mixed, domain=sd_), dtype=float)
+        sc_o = np.abs(X.reshape(-1, ns)) @ np.abs(np.asarray(est_o.A, dtype=float)).T + 1e-300
+        check(got_o.shape == mix_o.shape and np.all(np.abs(got_o - mix_o) <= 1e-9 * sc_o), "system_capture:own-domain",
+              f"sources registered on their own grid: system_capture(x) = {np.ravel(got_o)[:3].tolist()} but the capture of the mixed spectrum on that grid = {np.ravel(mix_o)[:3].tolist()}")
     # (b) relative captures = K (Q + baseline)
     with calling("system_relative_capture"):
         rel = np.asarray(est.system_relative_capture(X))
